@@ -565,6 +565,13 @@ func c06Negatives() []c06Case {
 	mk("diamond", true, memFile{Name: "compose.yaml", Content: "include: [a/compose.yaml, b/compose.yaml]\n" + svc("web", "one")},
 		memFile{Name: "a/compose.yaml", Content: "include: [../shared/compose.yaml]\n" + svc("a", "x")}, memFile{Name: "b/compose.yaml", Content: "include: [../shared/compose.yaml]\n" + svc("b", "x")},
 		memFile{Name: "shared/compose.yaml", Content: svc("shared", "s") + "volumes:\n  sv: {}\n"})
+	// two routes of different depth to a file whose content path resolution changes: one env file spelled twice,
+	// one mount target spelled twice, a port range overlapping a single port
+	for i, body := range []string{"    env_file: [./a.env, a.env]\n", "    volumes: [\"./d:/data\", \"./e:/data/\"]\n", "    label_file: [./a.env, a.env]\n", "    env_file: [{path: a.env}, {path: ./sub/../a.env, required: false}]\n"} {
+		mk(fmt.Sprintf("diamond-unequal-depth-%d", i), true, memFile{Name: "compose.yaml", Content: "include: [mid/compose.yaml, shared/compose.yaml]\n" + svc("web", "one")},
+			memFile{Name: "mid/compose.yaml", Content: "include: [../shared/compose.yaml]\n" + svc("mid", "m")},
+			memFile{Name: "shared/compose.yaml", Content: "services:\n  sh:\n    image: x\n" + body}, memFile{Name: "shared/a.env", Content: "A=1\n"})
+	}
 	mk("included-config-from-environment", true, memFile{Name: "compose.yaml", Content: "include: [inc/compose.yaml]\n" + svc("web", "one")},
 		memFile{Name: "inc/compose.yaml", Content: svc("db", "two") + "configs:\n  c: {environment: CVAR}\n"}, memFile{Name: "inc/.env", Content: "CVAR=cfg-value\n"})
 	mk("included-secret-from-environment", true, memFile{Name: "compose.yaml", Content: "include: [inc/compose.yaml]\n" + svc("web", "one")},
